@@ -35,6 +35,10 @@ fn templates() -> Vec<(&'static str, Expr, bool)> {
     vec![
         ("ok-arith", Expr::add(Expr::value(1), Expr::value(2)), false),
         ("ok-none", Expr::none_value(), false),
+        ("ok-literal-true", Expr::value(true), false),
+        ("ok-literal-false", Expr::value(false), false),
+        ("ok-literal-string", s("constant"), false),
+        ("ok-literal-list", Expr::Vec(vec![]), false),
         ("ok-facts", Expr::some(Expr::reff("facts")), false),
         ("ok-symbol", Expr::symbol("sym"), false),
         ("ok-call-cacheable", Expr::func("c", Expr::value(1)), false),
@@ -118,6 +122,27 @@ fn build(rules: &[(String, Expr)], plan: &Arc<FaultPlan>) -> Built {
     for (i, (name, e)) in rules.iter().enumerate() {
         let mut meta = BTreeMap::new();
         meta.insert("position".to_string(), Value::Int(i as i128));
+        // metadata a ruleset might be tempted to interpret: it must stay inert (order, skipping and pairing do not depend on it)
+        match i % 7 {
+            1 => {
+                meta.insert("priority".to_string(), Value::Int(1000 - i as i128));
+                meta.insert("order".to_string(), Value::Int(-(i as i128)));
+            }
+            2 => {
+                meta.insert("disabled".to_string(), Value::Bool(true));
+                meta.insert("enabled".to_string(), Value::Bool(false));
+            }
+            3 => {
+                meta.insert("skip".to_string(), Value::Bool(true));
+                meta.insert("name".to_string(), Value::String("another name".into()));
+                meta.insert("description".to_string(), Value::Int(5));
+            }
+            4 => {
+                meta.insert("cacheable".to_string(), Value::Bool(false));
+                meta.insert("constant".to_string(), Value::Bool(true));
+            }
+            _ => {}
+        }
         let r = Rule::new(name.clone(), meta, e.clone());
         kept.push(r.clone());
     }
@@ -405,7 +430,7 @@ fn run(ctx: &mut Ctx) {
         }
     }
     // big rulesets (9..80 rules) with unusual rule names
-    let odd_names = ["", " ", "rule", "Rule", "rule ", "r\n2", "名前", "0", "facts", "name", "description", "a-b", "__probe"];
+    let odd_names = ["", " ", "rule", "Rule", "rule ", " rule", "RULE", "r\n2", "名前", "0", "facts", "name", "description", "a-b", "__probe", "r\u{e9}", "re\u{301}", "ﬁ", "fi", "ß", "ss", "SS", "ǆ", "ǅ", "ı", "i", "İ", "I", "\u{212a}", "k", "K", "rule\u{a0}", "rule\t", "\u{feff}rule", "ｒｕｌｅ"];
     for _ in 0..ctx.tier.of(40, 400) {
         let n = if rng.chance(1, 40) { 1_000 + rng.below(3_000) } else if rng.chance(1, 8) { 81 + rng.below(440) } else { 9 + rng.below(72) };
         let mut rules = vec![];
@@ -444,7 +469,7 @@ fn run(ctx: &mut Ctx) {
 fn finish(m: &Merged, tier: Tier) -> Finish {
     let subsets = m.prefix_count("subset:");
     let mut f = Finish {
-        rule: "rulesets of 0..8 rules drawn from 18 templates (succeeding, failing with each error class, calling cacheable / non-cacheable / failing user functions) plus input-dependent rules; every subset and position of failing rules for n <= 6; six input shapes; positional fault plans for user functions; 13 serde inputs for evaluate(&T) including values whose Serialize fails. Oracles: outcome count and order; outcome.rule == the rule that was added; outcome == reference evaluation of that rule inside this ruleset (shared cache model); == outcome of the singleton ruleset; evaluate(&T) == evaluate_value(&serialize(T)), Err iff serialization is. Every case is non-trivial; distinct by (templates, input, fault plan)".into(),
+        rule: "rulesets built in three ways (with_rule one by one, one with_rules batch, a batch after the first rule) of 0..8 rules (and big ones of 9..4000 rules with odd names) drawn from 18 templates (succeeding, failing with each error class, calling cacheable / non-cacheable / failing user functions) plus input-dependent rules; every subset and position of failing rules for n <= 6; six input shapes; positional fault plans for user functions; 13 serde inputs for evaluate(&T) including values whose Serialize fails. Oracles: outcome count and order; outcome.rule == the rule that was added; outcome == reference evaluation of that rule inside this ruleset (shared cache model); == outcome of the singleton ruleset; evaluate(&T) == evaluate_value(&serialize(T)), Err iff serialization is. Every case is non-trivial; distinct by (templates, input, fault plan)".into(),
         exhaustive: false,
         exhaustive_part: "all 127 (n, failing-subset) patterns for n <= 6, each with several template draws".into(),
         ..Default::default()
